@@ -333,7 +333,7 @@ where
             GenericNCommand::Output { span, file, exprs } => GenericNCommand::Output {
                 span,
                 file,
-                exprs: exprs.into_iter().map(f).collect(),
+                exprs: exprs.into_iter().map(|e| e.visit_exprs(f)).collect(),
             },
             GenericNCommand::Push(n) => GenericNCommand::Push(n),
             GenericNCommand::Pop(span, n) => GenericNCommand::Pop(span, n),
